@@ -5,6 +5,9 @@ open Model
 open Zutil
 
 let strict = Array.length Sys.argv > 1 && Sys.argv.(1) = "strict"
+(* mode "c05": case = F <hex of Message.Marshal bytes> <d:p:f=tree the writer believes it wrote>
+   -> T<strict spec_decode of the root under these caps>;V<strict_valid_message verdict> *)
+let c05 = Array.length Sys.argv > 1 && Sys.argv.(1) = "c05"
 
 let z_of_dec (s : string) : z =
   let neg, s = if String.length s > 0 && s.[0] = '-' then true, String.sub s 1 (String.length s - 1) else false, s in
@@ -97,7 +100,48 @@ let obs_str (o : sobs) : string =
   | ONums l -> "U" ^ String.concat "," (List.map dec_of_z l)
   | OBools l -> "Y" ^ String.concat "" (List.map (fun x -> if x then "1" else "0") l)
 
-let () = iter_lines (fun line ->
+(* stream framing of encoding.html: (segment count - 1) as u32, each segment's size in words as
+   u32, padding to a word boundary, then the segments *)
+let split_frame (b : int array) : z list list option =
+  let n = Array.length b in
+  let u32 o = if o + 4 > n then -1 else b.(o) lor (b.(o+1) lsl 8) lor (b.(o+2) lsl 16) lor (b.(o+3) lsl 24) in
+  let cnt = u32 0 in
+  if cnt < 0 || cnt > 1000 then None else begin
+    let nseg = cnt + 1 in
+    let hdr = (4 * (nseg + 1) + 7) / 8 * 8 in
+    if hdr > n then None else begin
+      let sizes = List.init nseg (fun i -> u32 (4 + 4 * i)) in
+      let total = List.fold_left (fun a s -> a + 8 * s) hdr sizes in
+      if List.exists (fun s -> s < 0) sizes || total <> n then None else begin
+        let off = ref hdr in
+        Some (List.map (fun s -> let o = !off in off := o + 8 * s;
+                         List.init (8 * s) (fun i -> z_of_int b.(o + i))) sizes)
+      end
+    end
+  end
+
+let verdict_str = function
+  | VOk -> "ok" | VUnaligned -> "unaligned" | VInvalid -> "invalid" | VOverlap -> "overlap" | VFuel -> "fuel"
+
+let run_c05 line =
+  match split_ws line with
+  | [_f; hex; x] ->
+    let bytes = Array.of_list (List.map int_of_z (bytes_of_hex hex)) in
+    (match split_frame bytes with
+     | None -> print_endline "Tnone;Vbad-frame"
+     | Some m ->
+       let caps = List.hd (String.split_on_char '=' x) in
+       (match String.split_on_char ':' caps with
+        | [d; p; f] ->
+          let fuel = nat_of_int (int_of_string f) in
+          let t = spec_decode_root true fuel (z_of_dec d) (z_of_dec p) m in
+          print_endline ("T" ^ tree_string t ^ ";V" ^ verdict_str (strict_valid_message fuel m))
+        | _ -> print_endline "bad-case"))
+  | _ -> print_endline "bad-case"
+
+let run_c05 line = try run_c05 line with Stack_overflow | Out_of_memory -> print_endline "Texception;Vexception"
+
+let () = if c05 then iter_lines run_c05 else iter_lines (fun line ->
   match split_ws line with
   | _arena :: _t :: _d :: rest ->
     let segs, ops, exp = match rest with
@@ -119,6 +163,7 @@ let () = iter_lines (fun line ->
     let obs = List.map obs_str (spec_run_ops strict m ops) in
     let obs = match exp with
       | None -> obs
+      | Some "valid" -> obs   (* marks a message that is spec-valid by construction, without a tree *)
       | Some x ->
         (* d:p:f=<tree the encoder started from>: print the decoded root tree under these caps *)
         let caps = List.hd (String.split_on_char '=' x) in
